@@ -433,6 +433,23 @@ def do_case(spec):
         for sg, _ in gsegs:
             if sg.get_seg_id() == 'IEA':
                 sg.set('IEA01', str(ngs + 1))
+    # a transaction set of the SIBLING map (same GS08 and GS01, other BHT02: 278 request / response) inside the same group: the
+    # map has to be re-selected at every BHT, not once per group
+    siblings = [e for e in gendoc.index_entries() if e['icvn'] == m['icvn'] and e['vriic'] == m['vriic'] and e['fic'] == m['fic']
+                and e.get('tspc') != m.get('tspc')]
+    if siblings and sd % 2 == 0:
+        e = siblings[0]
+        g3 = gendoc.Gen(e['map_file'], e['icvn'], e['vriic'], e['fic'], seed=sd + 2, p_opt=p_opt, max_rep=max_rep, tspc=e.get('tspc'))
+        g3.doc()
+        ids3 = [sg.get_seg_id() for sg, _ in g3.segs]
+        st_set = list(g3.segs[ids3.index('ST'):ids3.index('SE') + 1])
+        st_set[0][0].set('ST02', '7777')
+        st_set[-1][0].set('SE02', '7777')
+        ids1 = [sg.get_seg_id() for sg, _ in gsegs]
+        k = ids1.index('SE') + 1
+        if sd % 4 == 0:
+            k = ids1.index('ST')        # the sibling first
+        gsegs = gsegs[:k] + st_set + gsegs[k:]
     text = ''.join(sg.format('~', '*', ':') + '\n' for sg, _ in gsegs)
     out = {'spec': spec, 'text': text, 'nseg': len(gsegs), 'cases': []}
     rview = reader_view(text)
